@@ -355,6 +355,11 @@ func validateKeyPurposes(pubKey document.PublicKey) error {
 		return fmt.Errorf("if '%s' key is specified, it must contain at least one purpose", document.PurposesProperty)
 	}
 
+	if list, ok := pubKey[document.PurposesProperty].([]interface{}); ok && len(list) != len(pubKey.Purpose()) {
+		// the typed view skips whatever is not a string
+		return fmt.Errorf("'%s' must be a list of strings", document.PurposesProperty)
+	}
+
 	if len(pubKey.Purpose()) > len(allowedPurposes) {
 		return fmt.Errorf("public key purpose exceeds maximum length: %d", len(allowedPurposes))
 	}
